@@ -207,6 +207,8 @@ pub fn value_for(kind: Kind, g: u32) -> String {
 }
 
 pub const MAX_UPDATES: u32 = 3;
+/// Bound on device updates per multi-field read (3 in the quick tier, 6 in the thorough tier).
+pub static MAX_UPDATES_RT: std::sync::atomic::AtomicU32 = std::sync::atomic::AtomicU32::new(MAX_UPDATES);
 
 struct TearVisitor;
 
@@ -254,7 +256,7 @@ pub fn run_tear(kind: Kind, tkind: TKind) {
         let u = updates.clone();
         let hook: Box<dyn FnMut(&DevRc, bool)> = Box::new(move |dev: &DevRc, _is_gen: bool| {
             let mut n = u.borrow_mut();
-            if *n < MAX_UPDATES && deviate(2, "device updates its configuration before this read") == 1 {
+            if *n < MAX_UPDATES_RT.load(std::sync::atomic::Ordering::Relaxed) && deviate(2, "device updates its configuration before this read") == 1 {
                 *n += 1;
                 let mut d = dev.borrow_mut();
                 d.config_gen += 1;
